@@ -140,7 +140,7 @@ func value(id string, keys []string, maxLen int, tags uint32, depth int) interfa
 		panic(assumeFailed{})
 	}
 	tag := tl[Choice(id+".tag", len(tl))]
-	ctags := tags &^ TMissing
+	ctags := childTags(tags)
 	switch 1 << uint(tag) {
 	case TNull:
 		return nil
@@ -197,6 +197,7 @@ func value(id string, keys []string, maxLen int, tags uint32, depth int) interfa
 // Doc returns an arbitrary document with at most maxLen fields, distinct keys from the pool, values
 // per tags with containers nested up to depth.
 func Doc(id string, keys string, maxLen int, tags uint32, depth int) primitive.D {
+	// the fields of a top-level document use the top-level tag mask; values nested in them the child mask
 	return doc(id, keysOf(keys), maxLen, tags&^TMissing, depth)
 }
 
@@ -645,3 +646,13 @@ func firstLungoFrame(stack string) string {
 }
 
 var _ = unsafe.Pointer(nil)
+
+// Child turns a tag mask into the modifier "nested values use this mask" (to be or-ed into tags).
+func Child(mask uint32) uint32 { return mask << 16 }
+
+func childTags(tags uint32) uint32 {
+	if hi := tags >> 16; hi != 0 {
+		return (hi | hi<<16) &^ TMissing
+	}
+	return tags &^ TMissing
+}
